@@ -575,6 +575,10 @@ func famTamper(r *Rand) *seqScenario {
 				key = []string{"@edgedata", "@edgedata", "@edgehash0", "@edgehash1", "@edgenames"}[r.Intn(5)]
 			}
 			mut := []string{"delete", "truncate", "flip", "flipraw", "flipraw", "copyfrom", "rollback"}[r.Intn(7)]
+			if crashMid && r.Chance(25) {
+				// a staging bundle that parses up to some entry: applied as far as it parses, then the load is refused
+				key, mut = "@staging", "fliptail"
+			}
 			if mut == "rollback" {
 				// only keys that are ever rewritten or removed have earlier versions
 				key = []string{"checkpoint", "checkpoint", "@staging"}[r.Intn(3)]
